@@ -37,11 +37,10 @@ POOLS = {
     # label kinds: one letter, hyphen, underscore, leading digit, 63 characters,
     # non-BMP and combining-mark labels (all round-trip through the idna codec)
     "kinds": ["x", "a-b", "a_b", "9lives", "a" * 63, "\U0001F34A", "\u00e9\u0301", "\U00020BB7\u91ce\u5bb6"],
-    "sharp": ["stra\u00dfe", "de", "strasse", "\ufb01nance"],  # case mapping / folding / idna mapping does not round-trip
     "wide": ["a", "b", "c", "d", "e", "f", "g", "h", "i"],
     "deep": ["a", "b"],
 }
-POOL_ORDER = ["ab", "abc", "abcd", "real", "idn", "edge", "digits", "suffixy", "kinds", "sharp", "wide", "deep"]
+POOL_ORDER = ["ab", "abc", "abcd", "real", "idn", "edge", "digits", "suffixy", "kinds", "wide", "deep"]
 URL_FORMS = ["http", "bare", "port", "schemeless", "auth", "split", "https_q", "auth_noport", "user_only", "upper_scheme", "query_only", "frag_only", "bare_port", "bare_query", "bare_user", "bare_dslash", "bare_q_url", "auth_esc"]
 NONSTRING = ["none", "int", "list", "bytes"]
 FAULT_KINDS = ["iter_cancel", "add_raises"]
@@ -235,7 +234,7 @@ def generate(seed, run, tier):
     if family == "bundled":
         return generate_bundled(crng, srng)
 
-    pool = weighted_choice(crng, [("ab", 30), ("abc", 25), ("abcd", 8), ("real", 12), ("idn", 12), ("edge", 8), ("digits", 5), ("suffixy", 6), ("kinds", 7), ("sharp", 5), ("wide", 5), ("deep", 5)])
+    pool = weighted_choice(crng, [("ab", 30), ("abc", 25), ("abcd", 8), ("real", 12), ("idn", 12), ("edge", 8), ("digits", 5), ("suffixy", 6), ("kinds", 7), ("wide", 5), ("deep", 5)])
     alphabet = POOLS[pool]
     if pool in ("real", "idn", "edge", "digits", "abcd", "suffixy") and crng.random() < 0.5:
         alphabet = alphabet[: crng.choice([3, 4])]
@@ -910,7 +909,7 @@ RULE = (
 )
 ASSUMPTIONS = [
     "ordinary hostnames only: no label is 'localhost', no host is four all-digit labels (documented as undefined)",
-    "IDN labels are restricted to ones that round-trip through Python's idna codec; that codec is trusted",
+    "IDN labels are restricted to ones that round-trip through Python's idna codec (that codec is trusted) and whose simple lower-casing and full case folding coincide: whether 'straße' and 'strasse' are the same hostname 'case-insensitively' is a matter of reading, so no such pair is generated",
     "operations are atomic; an iterator overtaken by an add is not judged",
     "add() of a non-string must raise and leave the set unchanged; if it is accepted instead the run stops being judged",
     "sampled histories: a clean batch is evidence, not proof",
